@@ -106,7 +106,14 @@ func (s *Spec) Apply(op Op) (must, may []Emit) {
 		}
 		for li := range s.logins {
 			if li != op.I && s.logins[li].status == lParked && s.ldefs[li].PID == pid {
-				s.Unspecified = "two waiting logins with one pid"
+				if len(cand) > 0 {
+					s.Unspecified = "a login for a pid that has both a waiting login and an open session"
+					continue
+				}
+				// a second login for a pid whose first login is still waiting (a re-sent line, or the pid reused
+				// before any audit record was seen): one login can wait per pid, and it is the newer one, with
+				// the newer one's age
+				s.logins[li].status = lDiscarded
 			}
 		}
 		if len(cand) > 1 {
